@@ -342,6 +342,13 @@ func runRules(c *evid.Case) {
 			}
 		default:
 			c.Count("outcome/"+mu.rule+"/"+r.ErrText(), 1)
+			// informational (C10's direction, no verdict here): does a REFUSED instead-of mutant change what happens to
+			// the honest original afterwards?
+			if baseline && !mu.after {
+				if r2, p2 := e.validate(c, mv, dB); !p2 && !r2.Accepted() {
+					c.Count("observation/refused_mutant_made_the_honest_original_unacceptable/"+mu.rule, 1)
+				}
+			}
 		}
 		if baseline && !pan {
 			h := evid.Hash(mu.rule, mu.name, kind, m.Role, s.val.N, post, pc)
@@ -397,7 +404,9 @@ func (e *env) mutants(rng *rand.Rand, s *stream, i int, post bool) []mutant {
 	v := m0.Val
 	n := v.N
 	var out []mutant
-	add := func(rule, name string, after bool, d delivery) { out = append(out, mutant{rule: rule, name: name, after: after, d: d}) }
+	add := func(rule, name string, after bool, d delivery) {
+		out = append(out, mutant{rule: rule, name: name, after: after, d: d})
+	}
 	addMsg := func(rule, name string, after bool, m *vsim.Msg) {
 		if remake(m) {
 			if m.Role == spectypes.BNRoleProposer && uint64(m.Slot) < 1<<40 {
@@ -735,10 +744,17 @@ func runConc(c *evid.Case) {
 		e.validate(c, mv, e.honest(s.msgs[k], post))
 	}
 	K := 3 + rng.Intn(6)
-	scenario := rng.Intn(3)
+	scenario := rng.Intn(4)
+	if scenario == 3 {
+		// cold validator (no history, empty operator-key cache): the first messages of several streams, i.e. different
+		// message ids (roles / validators), mostly broadcast by the same operator, all at once
+		mv = w.NewValidator(post, 1)
+		i, K = 0, 0
+	}
 	type job struct {
-		d   delivery
-		key string
+		d    delivery
+		key  string
+		what string // kind/role of the message (for signatures)
 	}
 	var jobs []job
 	keyOf := func(m *vsim.Msg) string {
@@ -761,14 +777,34 @@ func runConc(c *evid.Case) {
 		}
 		d := e.deliver(m, post)
 		d.at = m0.At
-		jobs = append(jobs, job{d: d, key: keyOf(m)})
+		jobs = append(jobs, job{d: d, key: keyOf(m), what: kindOf(m.Cons) + "/" + m.Role.String()})
+	}
+	if scenario == 3 {
+		jobs = nil
+		for _, sp := range e.specs {
+			st := e.stream(sp)
+			fm := st.msgs[0]
+			d := e.honest(fm, post)
+			wh := "partial-signature/" + fm.Role.String()
+			key := fmt.Sprintf("%x/%s/first", fm.Val.PK[:4], fm.Role)
+			if fm.Cons != nil {
+				wh, key = kindOf(fm.Cons)+"/"+fm.Role.String(), keyOf(fm)
+			} else {
+				key += fmt.Sprintf("/partial%d", rng.Intn(1<<30)) // partial-signature messages carry no per-round limit in the statement
+			}
+			jobs = append(jobs, job{d: d, key: key, what: wh})
+			if fm.Cons != nil {
+				jobs = append(jobs, job{d: d, key: key, what: wh})
+			}
+		}
 	}
 	if scenario == 2 {
 		// unrelated traffic at the same time: other validators' honest messages (each twice)
 		for _, vk := range []vsim.ValKind{vsim.Liquidated, vsim.Unknown} {
 			if m0.Val.N == 4 {
 				r := vsim.Retarget(m0, w.Vals[vk])
-				jobs = append(jobs, job{d: e.deliver(r, post), key: keyOf(r)}, job{d: e.deliver(r, post), key: keyOf(r)})
+				wh := kindOf(r.Cons) + "/" + r.Role.String()
+				jobs = append(jobs, job{d: e.deliver(r, post), key: keyOf(r), what: wh}, job{d: e.deliver(r, post), key: keyOf(r), what: wh})
 			}
 		}
 		other := e.stream(e.specs[rng.Intn(len(e.specs))])
@@ -776,7 +812,8 @@ func runConc(c *evid.Case) {
 			if om.Cons != nil && kindOf(om.Cons) != "decided" && (om.Val != m0.Val || om.Role != m0.Role) {
 				d := e.honest(om, post)
 				d.at = m0.At // one clock for the whole batch (the virtual clock is shared)
-				jobs = append(jobs, job{d: d, key: keyOf(om)}, job{d: d, key: keyOf(om)})
+				wh := kindOf(om.Cons) + "/" + om.Role.String()
+				jobs = append(jobs, job{d: d, key: keyOf(om), what: wh}, job{d: d, key: keyOf(om), what: wh})
 			}
 		}
 	}
@@ -805,10 +842,12 @@ func runConc(c *evid.Case) {
 		return
 	}
 	acc := map[string]int{}
+	whatOf := map[string]string{}
 	total := 0
 	for j, ok := range results {
 		if ok {
 			acc[jobs[j].key]++
+			whatOf[jobs[j].key] = jobs[j].what
 			total++
 		}
 	}
@@ -817,9 +856,9 @@ func runConc(c *evid.Case) {
 	c.Count(fmt.Sprintf("conc_scenario_%d", scenario), 1)
 	for k, n := range acc {
 		if n > 1 {
-			c.Violation("accepted-over-limit", "concurrent/"+kind+"/"+m0.Role.String(),
+			c.Violation("accepted-over-limit", "concurrent/"+whatOf[k],
 				fmt.Sprintf("%d concurrent validations of %s messages with the same (validator, role, signer, slot, round, type) = %s were ALL accepted (limit 1); K=%d scenario=%d phase=%s after %d honest messages of %s",
-					n, kind, k, K, scenario, phaseName(post), i, s.name),
+					n, whatOf[k], k, K, scenario, phaseName(post), i, s.name),
 				map[string]any{"key": k, "accepts": n, "K": K, "scenario": scenario, "stream": s.name, "position": i, "phase_post": post})
 		}
 	}
